@@ -616,10 +616,41 @@ fn mutate_csv(rng: &mut Rng, text: &str) -> (String, String) {
         }
         3 => {
             if !lines[li].is_empty() {
-                let c = rng.below(lines[li].len());
-                lines[li][c] = rng
-                    .pick(&["", "TextSelector", "DataKeySelector", "AnnotationDataSelector", "MultiSelector", "CompositeSelector;TextSelector", "DirectionalSelector", "!A3000000", "-0", "-99999999999999999999", "18446744073709551616", "x;y;z", "AnnotationStore", "TextResource", "AnnotationDataSet", "DataKey"])
-                    .to_string();
+                let mut c = rng.below(lines[li].len());
+                // half of the time the selector-type column, with every kind name the library itself can print
+                // (a name it prints must be safe to read back), alone or as the first / a later member of a list
+                let typecol = lines[0].iter().position(|h| h == "SelectorType");
+                if let (Some(tc), true) = (typecol, li > 0 && rng.chance(1, 2)) {
+                    if tc < lines[li].len() {
+                        c = tc;
+                    }
+                    let kinds: Vec<String> = [
+                        SelectorKind::ResourceSelector,
+                        SelectorKind::AnnotationSelector,
+                        SelectorKind::TextSelector,
+                        SelectorKind::DataSetSelector,
+                        SelectorKind::DataKeySelector,
+                        SelectorKind::AnnotationDataSelector,
+                        SelectorKind::MultiSelector,
+                        SelectorKind::CompositeSelector,
+                        SelectorKind::DirectionalSelector,
+                        SelectorKind::InternalRangedSelector,
+                    ]
+                    .iter()
+                    .map(|k| k.as_str().to_string())
+                    .collect();
+                    let k = rng.pick(&kinds).clone();
+                    let k = if rng.chance(1, 4) { k.to_lowercase() } else { k };
+                    lines[li][c] = match rng.below(3) {
+                        0 => k,
+                        1 => format!("{};{}", k, rng.pick(&kinds)),
+                        _ => format!("{};{}", rng.pick(&kinds), k),
+                    };
+                } else {
+                    lines[li][c] = rng
+                        .pick(&["", "TextSelector", "DataKeySelector", "AnnotationDataSelector", "MultiSelector", "CompositeSelector;TextSelector", "DirectionalSelector", "!A3000000", "-0", "-99999999999999999999", "18446744073709551616", "x;y;z", "AnnotationStore", "TextResource", "AnnotationDataSet", "DataKey"])
+                        .to_string();
+                }
             }
             desc = format!("replace_cell@{}", li);
         }
@@ -770,7 +801,18 @@ pub fn gen_case(seed: u64, index: u64) -> Option<Case> {
             let text = String::from_utf8_lossy(data).to_string();
             match serde_json::from_str::<serde_json::Value>(&text) {
                 Ok(mut v) => {
-                    let includes: Vec<String> = names.iter().filter(|n| n.ends_with(".store.stam.json")).cloned().collect();
+                    // @include targets of the same family as the file that is hit (itself included: self-inclusion)
+                    let family = |n: &str| -> u8 {
+                        if n.ends_with(".store.stam.json") {
+                            0
+                        } else if n.ends_with(".annotationset.stam.json") {
+                            1
+                        } else {
+                            2
+                        }
+                    };
+                    let fam = family(&target);
+                    let includes: Vec<String> = names.iter().filter(|n| n.ends_with(".json") && family(n) == fam).cloned().collect();
                     let d = mutate_json_document(&mut rng, &mut v, &includes);
                     *data = serde_json::to_string_pretty(&v).ok()?.into_bytes();
                     fault = format!("json:{}:{}", target, d);
